@@ -368,8 +368,22 @@ func (g *Gen) contractCall(in *ssa.Call, con *Contract, callee *ssa.Function, co
 		}
 		keep := map[string]string{}
 		if len(con.Preserves) > 0 {
-			for k := range g.modifiesKeys(&Contract{Modifies: con.Preserves, File: con.File, Line: con.Line}, cpkg) {
-				keep[k] = g.heapGet(st, k, g.heapSortsM[k])
+			for _, pm := range con.Preserves {
+				// a preserved designator may name a type of a package that is not part of this run (the
+				// assumed contracts of net/http name server types): nothing of that type exists here
+				func() {
+					defer func() {
+						if r := recover(); r != nil {
+							if se, ok := r.(specError); ok && strings.Contains(se.msg, "unknown type") {
+								return
+							}
+							panic(r)
+						}
+					}()
+					for k := range g.modifiesKeys(&Contract{Modifies: []string{pm}, File: con.File, Line: con.Line}, cpkg) {
+						keep[k] = g.heapGet(st, k, g.heapSortsM[k])
+					}
+				}()
 			}
 		}
 		g.havocAll(st, short)
